@@ -568,6 +568,13 @@ class Gen:
             "TRAIT ID S String 1 1", 0, "thread/send-string: a String grown on another thread while this one allocates", "h3t")
         add("h5m", True, "    let b = Bump::new();\n    let mut v = Vec::<u64>::new_in(&b);\n    v.extend([1u64, 2, 3]);\n    let src: std::vec::Vec<u64> = (0..64).collect();\n    let sp = v.splice(1..2, src.into_iter());\n    std::thread::scope(|s| {\n        s.spawn(move || { drop(sp); });   // Splice::drop -> Vec::extend / reserve: allocates from `b` on that thread\n        for i in 0..64u64 { touch(b.alloc(i)); }   // this thread allocates from `b` at the same time\n    });\n",
             "TRAIT ID S vec::Splice 1 1", 0, "thread/splice-send: a Splice dropped on another thread allocates from the shared arena", "h3t")
+        # sharing a container by reference hands the other thread the arena itself (`bump()`): must need `Sync`
+        add("h6m", True, "    let b = Bump::new();\n    let v = Vec::<u32>::new_in(&b);\n    std::thread::scope(|s| {\n        s.spawn(|| { touch(v.bump().alloc(1u32)); });\n        touch(b.alloc(2u32));\n    });\n",
+            "TRAIT ID S Vec 1 1", 1, "thread/share-vec: &Vec in another thread reaches the arena through Vec::bump", "h6t")
+        add("h6t", False, "    let b = Bump::new();\n    let x = Box::new_in(7u32, &b);\n    std::thread::scope(|s| {\n        s.spawn(|| { touch(&*x); });\n        touch(b.alloc(2u32));\n    });\n",
+            "TRAIT ID S Box 1 1", 1, "thread/share-box: &Box<u32> read on another thread (a Box holds no arena reference)", "h6m")
+        add("h7m", True, "    let b = Bump::new();\n    let s0 = String::from_str_in(\"hi\", &b);\n    std::thread::scope(|s| {\n        s.spawn(|| { touch(s0.bump().alloc(1u32)); });\n        touch(b.alloc(2u32));\n    });\n",
+            "TRAIT ID S String 1 1", 1, "thread/share-string: &String in another thread reaches the arena through String::bump", "h6t")
 
 
 def generate(seed, tier):
